@@ -42,6 +42,8 @@ func c17Gen(r *rand.Rand, tier string) []Case {
 	var out []Case
 	// fixed case: blocks whose transactions declare more than the block gas limit in total (each one below it), at the
 	// limit exactly, with one transaction above it, and on an unlimited block
+	// fixed case (recorded finding): a fractional minimum gas price and a decrease that ends between ⌊minimum⌋ and the minimum
+	out = append(out, Case{"bf 0 0 11 2 8 10900000000000000000 500000000000000000 5 100 0", "bf 0 0 11 2 8 10000000000000000000 500000000000000000 5 100 0"})
 	out = append(out, Case{"gw 10000000 " + strings.TrimSuffix(strings.Repeat("1000000,", 30), ","), "gw 10000000 10000000", "gw 10000000 9999999,2,10000001,5",
 		"gw -1 1000000,9223372036854775808,7", "gw 30000 21000,21000"})
 	for i := 0; i < n; i++ {
@@ -247,6 +249,11 @@ func c17Exec(c Case) (outs []string, fails []Failure, tags []string) {
 					want = new(big.Int).Sub(parent, d)
 					if want.Cmp(minFloor) < 0 {
 						want = minFloor
+					}
+					// the property's wording, strictly: never below the configured minimum (a decimal) — the code floors at
+					// ⌊minimum⌋, so with a fractional minimum a decrease can end up to one unit below it
+					if mg := mustBig(f[6]); new(big.Int).Mul(fee, e18).Cmp(mg) < 0 && new(big.Int).Mul(parent, e18).Cmp(mg) >= 0 {
+						fails = append(fails, Failure{Signature: "C17:below-min-gas-price:fraction-truncated", What: fmt.Sprintf("g<T: the base fee was lowered from %s to %s, below the configured minimum gas price %s/1e18", parent, fee, mg), Case: c[i : i+1]})
 					}
 					if fee.Cmp(minFloor) < 0 {
 						fails = append(fails, Failure{Signature: "C17:below-min-gas-price", What: fmt.Sprintf("g<T: base fee %s below ⌊minGasPrice⌋ %s", fee, minFloor), Case: c[i : i+1]})
